@@ -5,8 +5,8 @@
    Modelled as lawful codecs / reliable pipes, NOT verified: AES-CFB, snappy, yamux, kcp, quic,
    websocket, TLS, the kernel.  "Eventually delivered" and "closed within bounded time" are observed
    by the tunnel driver with a tolerance.  The claim is partial. *)
-From FRP Require Import Model.Limit Model.Bucket Model.Stack Model.Bridge
-  Proofs.LimitProofs Proofs.BucketProofs Proofs.StackProofs Proofs.BridgeProofs gen.GenStacks.
+From FRP Require Import Model.Limit Model.Bucket Model.Stack Model.Bridge Model.Bandwidth
+  Proofs.LimitProofs Proofs.BucketProofs Proofs.StackProofs Proofs.BridgeProofs Proofs.BandwidthProofs gen.GenStacks.
 From Coq Require Import Lia.
 Open Scope list_scope.
 Open Scope Z_scope.
@@ -56,6 +56,42 @@ Theorem C01_bucket_interval : forall rate burst st reqs outs T D, 0 < rate -> 0 
   BK_G * sumn (filter (in_window T D) outs) <= BK_G * burst + rate * D + rate.
 Proof. intros rate burst st reqs outs T D Hr. exact (bucket_bound_interval rate burst Hr st reqs outs T D). Qed.
 Print Assumptions C01_bucket_interval.
+
+(* ---- the limit AS CONFIGURED: string -> BandwidthQuantity -> limiter ---- *)
+
+(* reflective over today's pkg/config/types and the two proxy constructors: bytes = int64(f * float64(base)) with
+   MB = 1048576, KB = 1024; the limiter is rate.NewLimiter(bytes, bytes), created iff bytes > 0 and the mode names
+   that side (client constructor: mode client, server constructor: mode server) *)
+Theorem C01_bandwidth_table_ok : bw_table_ok bw_scale_expr bw_units limiter_ctors = true.
+Proof. vm_compute. reflexivity. Qed.
+Print Assumptions C01_bandwidth_table_ok.
+
+(* the byte count is the configured decimal quantity (ip.fp with k fraction digits) times the unit, rounded
+   down: never above what was configured and less than one byte per second below it - for EVERY quantity,
+   fractional ones included *)
+Theorem C01_bw_bytes_floor : forall ip fp k base, 0 <= ip -> 0 <= fp -> 0 < base ->
+  10 ^ Z.of_nat k * bw_bytes ip fp k base <= (ip * 10 ^ Z.of_nat k + fp) * base /\
+  (ip * 10 ^ Z.of_nat k + fp) * base < 10 ^ Z.of_nat k * (bw_bytes ip fp k base + 1).
+Proof. exact bw_bytes_floor. Qed.
+Print Assumptions C01_bw_bytes_floor.
+
+(* every configured quantity worth at least one byte per second ("0.5MB", "1.5KB", "0.001MB") yields a limiter on
+   the side the mode names (and none on the other side), in both enforcement modes *)
+Theorem C01_bw_fraction_gets_limiter : forall ip fp k base, 0 <= ip -> 0 <= fp -> 0 < base ->
+  10 ^ Z.of_nat k <= (ip * 10 ^ Z.of_nat k + fp) * base ->
+  1 <= bw_bytes ip fp k base /\
+  bw_limiter true (bw_bytes ip fp k base) = Some (bw_bytes ip fp k base, bw_bytes ip fp k base) /\
+  bw_limiter false (bw_bytes ip fp k base) = None.
+Proof. exact bw_fraction_gets_limiter. Qed.
+Print Assumptions C01_bw_fraction_gets_limiter.
+
+(* and with that limiter (rate = burst = the configured bytes b) the window bound reads: bytes <= b + b * D *)
+Theorem C01_bandwidth_configured_rate_bound : forall b st reqs outs T D, 0 < b -> 0 <= D ->
+  bw_limiter true b = Some (b, b) /\
+  (reqs_ok b st reqs -> bk_run b b st reqs = Some outs ->
+   BK_G * sumn (filter (in_window T D) outs) <= BK_G * b + b * D + b).
+Proof. exact bw_configured_rate_bound. Qed.
+Print Assumptions C01_bandwidth_configured_rate_bound.
 
 (* ---- the wrapper stacks mirror each other ---- *)
 
@@ -256,6 +292,12 @@ Theorem C01_response_after_handoff_refuted :
 Proof. vm_compute. reflexivity. Qed.
 Print Assumptions C01_response_after_handoff_refuted.
 
+(* reflective: the stcp visitor clears the 10 s handshake read deadline BEFORE it joins the visitor connection
+   (not in a defer, which would run after the stream is over): no deadline is armed on an admitted stream *)
+Theorem C01_visitor_deadline_cleared_before_join : visitor_events_ok stcp_visitor_events = true.
+Proof. vm_compute. reflexivity. Qed.
+Print Assumptions C01_visitor_deadline_cleared_before_join.
+
 (* ---- tcpMux on: complete-then-EOF at close needs the receiver to drain within StreamCloseTimeout ---- *)
 
 (* the relation the close-drain argument needs:  MaxStreamWindowSize x 1000 <= drain rate x StreamCloseTimeout(ms) *)
@@ -294,6 +336,10 @@ Print Assumptions C01_close_drain_slow_receiver_refuted.
 (* ---- non-vacuity ---- *)
 Example C01_example_codecs : (forall k, codec_lawful (toy_cipher k)) /\ codec_lawful toy_comp.
 Proof. split; [exact toy_cipher_lawful|exact toy_comp_lawful]. Qed.
+
+Example C01_example_bandwidth :
+  bw_parse (hx "302e354d42") = BwOk 524288 /\ bw_parse (hx "312e354b42") = BwOk 1536 /\ bw_parse (hx "3235364b42") = BwOk 262144.
+Proof. vm_compute. repeat split; reflexivity. Qed.
 
 Example C01_example_limit : limit_write 3 (hx "0102030405060708") = Some [hx "010203"; hx "040506"; hx "0708"].
 Proof. vm_compute. reflexivity. Qed.
